@@ -317,6 +317,31 @@ def run(ck):
         ck.tlc('PathData', pd % (3, 1), workers=1, coverage=False, on_case=on_prog, timeout=3000)
         ck.tlc('PathData', pd % (5, 2), workers=1, coverage=False, simulate=400, depth=6, on_case=on_prog)
     ck.count('parsed_origin_paths', pstate['n'])
+    # coordinates of other numeric types: numpy scalars (what rotated / scaled / bpoints2bezier(array) produce), ints, mixed - the text must stay a list of numbers
+    import numpy as np
+    base_paths = [sp.parse_path('M 1,2 L 4,6 Q 7,6 8,2 T 12,2 C 13,5 15,5 16,2 S 19,-1 20,2 A 3,2 30 0,1 26,4 Z'),
+                  sp.parse_path('M 0,0 C 1,2 3,2 4,0 L 4,-3 Z M 10,10 Q 12,14 14,10 L 12,8 Z'),
+                  sp.parse_path('M 5,5 A 4,4 0 1,0 9,9 L 0,9')]
+    conv = {'numpy.complex128': np.complex128, 'numpy.complex64-exact': lambda z: np.complex128(np.complex64(z)), 'int-valued complex': lambda z: complex(int(z.real), int(z.imag))}
+    variants = []
+    for bi_, bp in enumerate(base_paths):
+        for cn, cf in sorted(conv.items()):
+            segs = []
+            for sg in bp:
+                if isinstance(sg, sp.Arc):
+                    segs.append(sp.Arc(cf(sg.start), sg.radius, sg.rotation, sg.large_arc, sg.sweep, cf(sg.end)))
+                else:
+                    segs.append(type(sg)(*[cf(w) for w in sg.bpoints()]))
+            variants.append(('%d built from %s' % (bi_, cn), sp.Path(*segs)))
+        variants.append(('%d rotated(90)' % bi_, bp.rotated(90, origin=0j)))
+        variants.append(('%d scaled(2)' % bi_, bp.scaled(2)))
+        variants.append(('%d translated(np.complex128)' % bi_, bp.translated(np.complex128(3 - 2j))))
+        if not any(isinstance(sg, sp.Arc) for sg in bp):
+            variants.append(('%d bpoints2bezier(array)' % bi_, sp.Path(*[sp.bpoints2bezier(np.array(sg.bpoints())) for sg in bp])))
+    for tag_, vp in variants:
+        for o in OPTSEQ:
+            ck.case(fp=('numeric-types', tag_, str(o)), nontrivial=True)
+            roundtrip(ck, vp, o, 1e-9, {'numeric': tag_}, 'coordinates of another numeric type: ' + tag_)
     # V
     acc, reach = tracecheck.validate(ck, 'PathData_Trace', 'PathData_Trace.cfg', 'PathData_TraceAt.cfg', traces)
     ck.trace_ok(len(acc))
